@@ -23,7 +23,7 @@ Trees use the canonical format of core.canon; an absent value is
 """
 from .gen import (NAME, NUM, STR, DATE, KWVAL, BEGIN_G, BEGIN_O, END_G,
                   END_O, END, EQ, COMMA, LP, RP, LB, RB, SEMI, UNITS,
-                  PARTIAL, BADUNITS)
+                  PARTIAL, BADUNITS, ODDSPACE)
 
 STRICT = ("PVL", "ODL", "PDS3")
 TOLERANT = ("ISIS", "default")
@@ -55,6 +55,18 @@ class Recogniser:
         if j >= len(self.t):
             return None
         t = self.t[j]
+        if t.kind == ODDSPACE:
+            # "\x1c": in the ODL character set but no identifier there ->
+            # never a name or value; an ordinary unquoted string under the
+            # default grammar; outside the PVL/ISIS character set (the
+            # lexer rejects it, but a channel-level fault bypasses the
+            # lexer) -> decide nothing there
+            if self.config == "default":
+                return NAME
+            # elsewhere what such a token may be is dialect lore (C03/C17):
+            # outside the PVL/ISIS character set, no identifier under ODL
+            # and PDS3 yet taken as a parameter name there
+            raise Abstain("odd-space token outside the default grammar")
         if self.config == "ISIS" and t.kind in (BEGIN_G, BEGIN_O) and \
                 t.text.lower().startswith("begin_"):
             # ISIS has no BEGIN_GROUP / BEGIN_OBJECT keywords (ISISGrammar's
@@ -78,7 +90,7 @@ class Recogniser:
                 if top:
                     return items
                 raise Reject("block left open at end of text")
-            if k in (PARTIAL, BADUNITS):
+            if k in (PARTIAL, BADUNITS, ODDSPACE):
                 raise Reject("unterminated or malformed delimited token")
             if k == END:
                 if top:
@@ -126,7 +138,7 @@ class Recogniser:
                 and self.value_absent_ok():
             self.n_empty += 1
             return ("empty", eq_index)
-        if k in (PARTIAL, BADUNITS):
+        if k in (PARTIAL, BADUNITS, ODDSPACE):
             raise Reject("unterminated or malformed delimited token")
         if k in SIMPLE:
             tok = self.tok()
